@@ -5,15 +5,27 @@
 (* gdims (a subsequence of the object's, or an external array's); `reduce`   *)
 (* is the set of dimensions reduced (default: the grouper's; "all" for       *)
 (* dim=...).  Native xarray's rule (use_flox=False):                         *)
-(*   - 1-D grouper reduced over its own dimension: that dimension is         *)
-(*     REPLACED IN PLACE by the group dimension;                             *)
-(*   - otherwise the reduced dimensions disappear and the group dimension is *)
-(*     appended last.                                                        *)
+(*   - DataArray, 1-D grouper: the group dimension takes the place of the     *)
+(*     grouper's own dimension, the other reduced dimensions disappear;      *)
+(*   - DataArray, 2-D grouper: it is stacked, the group dimension comes last;*)
+(*   - Dataset: the group dimension comes first.                             *)
 (***************************************************************************)
 EXTENDS Integers, Sequences, FiniteSets
 ToSet(s) == {s[i] : i \in 1..Len(s)}
-NativeDims(objdims, gdims, reduce, gname) ==
-  IF Len(gdims) = 1 /\ reduce = {gdims[1]} /\ gdims[1] \in ToSet(objdims)
-  THEN [i \in 1..Len(objdims) |-> IF objdims[i] = gdims[1] THEN gname ELSE objdims[i]]
-  ELSE SelectSeq(objdims, LAMBDA d : d \notin reduce) \o <<gname>>
+\* position (1-based) of the first reduced dimension of the object
+FirstReduced(objdims, reduce) == CHOOSE i \in 1..Len(objdims) : objdims[i] \in reduce /\ \A j \in 1..(i - 1) : objdims[j] \notin reduce
+
+\* DataArray: the group dimension takes the place of the first reduced dimension, the other reduced
+\* dimensions disappear (for a 1-D grouper reduced over its own dimension this is "replaced in place").
+\* Dataset: the group dimension comes first.
+NativeDimsOf(objdims, gdims, reduce, gname, isDataset) ==
+  LET kept == SelectSeq(objdims, LAMBDA d : d \notin reduce) IN
+  IF isDataset \/ ~(\E i \in 1..Len(objdims) : objdims[i] \in reduce) THEN <<gname>> \o kept
+  ELSE IF Len(gdims) > 1 THEN kept \o <<gname>>        \* a multi-dimensional grouper is stacked: its dimension comes last
+  ELSE LET f == IF \E i \in 1..Len(objdims) : objdims[i] = gdims[1]
+                THEN CHOOSE i \in 1..Len(objdims) : objdims[i] = gdims[1]     \* the place of the grouper's own dimension
+                ELSE FirstReduced(objdims, reduce) IN
+       SelectSeq(SubSeq(objdims, 1, f - 1), LAMBDA d : d \notin reduce) \o <<gname>> \o SelectSeq(SubSeq(objdims, f + 1, Len(objdims)), LAMBDA d : d \notin reduce)
+
+NativeDims(objdims, gdims, reduce, gname) == NativeDimsOf(objdims, gdims, reduce, gname, FALSE)
 =============================================================================
